@@ -248,6 +248,34 @@ def check_b(ck, repo):
     g = repo.func(MOD, "_constraint_association_gain")
     L, C, LC, LIM, DC = _pn(g, P_LABELS), _pn(g, P_COUNTERS), _pn(g, P_LEFTCLOSE), _pn(g, P_LIMIT), _pn(g, P_DCLOSE)
     stores = _label_stores(g, L)
+    # every exit of the gain association comes after the transfer loop: the loop that moves
+    # points between clusters dominates every return (an exit taken before it returns the
+    # nearest-centre assignment whatever the cluster sizes are)
+    moves = [s_ for s_, t_ in stores if not isinstance(t_.slice, ast.Slice)]
+    loops_ = []
+    for s_ in moves:
+        outer = None
+        p_ = getattr(s_, "_parent", None)
+        while p_ is not None and p_ is not g.node:
+            if isinstance(p_, (ast.For, ast.While)):
+                outer = p_
+            p_ = getattr(p_, "_parent", None)
+        if outer is not None and not any(outer is o for o in loops_):
+            loops_.append(outer)
+    if loops_:
+        from engine.cfg import build_cfg as _bcfg, dominators as _dom
+
+        cfg_g = _bcfg(g.node)
+        dom = _dom(cfg_g)
+        heads = [n_ for n_ in cfg_g.nodes if n_.ast is not None and any(n_.ast is (o.iter if isinstance(o, ast.For) else o.test) or n_.ast is o for o in loops_)]
+        head_ids = {n_.id for n_ in heads}
+        reach_ = cfg_g.reachable()
+        early = [n_ for n_ in cfg_g.nodes if n_.kind == "return" and n_.id in reach_ and not (dom.get(n_.id, set()) & head_ids)]
+        n += 1
+        if heads and not early:
+            ck.holds("C07.b", g, "every return of the gain association follows the transfer loop", "no exit before the clusters were balanced")
+        elif heads:
+            ck.violated("C07.b", g, early[0].ast, "the gain association returns before the loop that moves points between clusters: the nearest-centre assignment is returned as it is, whatever the cluster sizes (clusters of more than ceil(n/k) points)")
     partners = []
     for s, t in stores:
         if isinstance(t.slice, ast.Slice):
@@ -464,6 +492,13 @@ def check_d(ck, repo):
         tc = ex.text(c, pr, c)
         bal = [tx for r, tx in rets if cond_text("self.balanced_predictions") in conds_at(repo, pr, r) and (cond_text("self.weights_ is None") in conds_at(repo, pr, r))]
         ck.verdict(bal == [ctext(f"({tc})[0]")], "C07.d", pr, f"balanced return {[b_[:50] for b_ in bal]}", "returns the balanced labels", "predict does not return the labels computed by the balanced assignment")
+        # for ANY batch: with balanced_predictions on (and no weights) every path of predict is the balanced one
+        from .sem import paths as _paths, RAISE as _RAISE, ptext as _ptext
+
+        pb = [p for p in _paths(pr, {"self.balanced_predictions": True, "self.weights_": None}) if p.ret != _RAISE]
+        plain_ = [p for p in pb if not any(_ptext(c_.func) == "constraint_predictions" for c_ in p.calls)]
+        where = (" and ".join(t if pol else f"not ({t})" for t, pol in plain_[0].conds) or "always") if plain_ else ""
+        ck.verdict(bool(pb) and not plain_, "C07.d", pr, "balanced_predictions=True: every path balances", "with balanced_predictions the labels of any batch come from the balanced assignment", f"with balanced_predictions=True predict still returns the plain nearest-centre labels when {where[:120]}: such batches do not obey the size constraint")
     cm = ci.methods.get("constraint_kmeans")
     if cm is None:
         raise AnalysisError("anchor vanished: ConstraintKMeans.constraint_kmeans")
@@ -535,6 +570,10 @@ WITNESSES = [
     {"name": "predict-leftover-off", "file": _F, "rule": "C07.d", "old": "    limit = X.shape[0] // centers.shape[0]\n    leftover = X.shape[0] - limit * centers.shape[0]\n    leftclose = numpy.empty((centers.shape[0],), dtype=numpy.int32)\n    distances_close", "new": "    limit = X.shape[0] // centers.shape[0]\n    leftover = X.shape[0] - limit * centers.shape[0] + 1\n    leftclose = numpy.empty((centers.shape[0],), dtype=numpy.int32)\n    distances_close"},
     {"name": "predict-training-strategy", "file": _K, "rule": "C07.d", "old": 'X, self.cluster_centers_, strategy=self.strategy + "_p"', "new": "X, self.cluster_centers_, strategy=self.strategy"},
     {"name": "predict-always-balanced", "file": _K, "rule": "C07.d", "old": "        if self.weights_ is None:\n            if self.balanced_predictions:\n                labels, _, __ = constraint_predictions(", "new": "        if self.weights_ is None:\n            if self.n_clusters:\n                labels, _, __ = constraint_predictions("},
+]
+WITNESSES += [
+    {"name": "switch-hoisted-stale-label", "file": _F, "rule": "C07.b", "old": "        for i_ in range(labels.shape[0]):\n            for j_ in range(i_ + 1, labels.shape[0]):\n                i = perm[i_]\n                j = perm[j_]\n                c1 = labels[i]\n", "new": "        for i_ in range(labels.shape[0]):\n            i = perm[i_]\n            c1 = labels[i]\n            for j_ in range(i_ + 1, labels.shape[0]):\n                j = perm[j_]\n"},
+    {"name": "predict-balanced-only-large-batches", "file": "mlinsights/mlmodel/kmeans_constraint.py", "rule": "C07.d", "old": "            if self.balanced_predictions:\n                labels, _, __ = constraint_predictions(", "new": "            if self.balanced_predictions and X.shape[0] > self.n_clusters:\n                labels, _, __ = constraint_predictions("},
 ]
 TWINS = [
     {"name": "leftover-modulo", "file": _F, "old": "    limit = X.shape[0] // centers.shape[0]\n    leftover = X.shape[0] - limit * centers.shape[0]\n    leftclose = numpy.empty((centers.shape[0],), dtype=numpy.int32)\n    distances_close", "new": "    limit = X.shape[0] // centers.shape[0]\n    leftover = X.shape[0] % centers.shape[0]\n    leftclose = numpy.empty((centers.shape[0],), dtype=numpy.int32)\n    distances_close"},
